@@ -10,10 +10,18 @@ Tie     : extracted readonly_headers / merge normalisation / try-finally (tools/
           * programs of one to three block trees run one after the other on ONE real ServerProxy: nested
             _additional_headers blocks with calls / notifications / batches, left normally or through an exception
             that is an Exception subclass, a direct BaseException subclass, GeneratorExit or SystemExit.
+          * the configured User-Agent: Config(user_agent=None | "" | blanks | odd / very long strings | non-strings),
+            given by keyword / by position / omitted, then copy() and attribute stores, handed to Transport,
+            SafeTransport, UnixTransport directly and to ServerProxy(uri, config=...) for http / https / unix+http
+            (the transport the proxy builds itself), with and without pushed 'User-Agent' / 'user-agent' /
+            'USER-AGENT' entries that are empty or not; also the configuration of the block-tree programs.
 Monitor : the property statement, evaluated on the header lines of EVERY request (those of the block trees too: the
           dictionaries in force at that moment are the constructor's plus those of the blocks the harness is inside
-          of), on the transport's stack around each block, and after each tree.
+          of), on the transport's stack around each block, and after each tree.  "The configured one" is what the
+          HARNESS configured (its own bookkeeping: the constructor argument or the latest attribute store; None asks
+          for the library default) -- never what the library's Config / transport objects report.
 """
+import contextlib
 import itertools
 import json
 
@@ -22,9 +30,11 @@ import pyval
 
 REQUIRED_THEOREMS = [
     "C18_recency", "C18_protected", "C18_user_agent", "C18_restore", "C18_restore_body", "C18_exit_kind",
-    "C18_block_scope",
+    "C18_block_scope", "C18_configured_agent", "C18_user_agent_configured",
     # in lean/JRV/Properties/C18Gen.lean (built and audited separately by harness/core.py)
     "C18_gen_readonly", "C18_gen_mergeLowercases", "C18_gen_blockFinally",
+    "C18_gen_configAgentDefaulting", "C18_gen_configCopyAgent", "C18_gen_transportAgent", "C18_gen_sendsTransportAgent",
+    "C18_gen_transportsForwardConfig", "C18_gen_proxyTransportsGetConfig",
 ]
 
 NAMES = ["x-test", "x-other", "accept"]
@@ -118,8 +128,23 @@ def in_domain_stack(stack):
     return True
 
 
+class Want(object):
+    """What the HARNESS configured: the content type and the user agent the requests must carry ("the configured
+    one").  Never read back from the library's Config / transport objects: a Config that silently replaces a
+    configured value must not be able to move the expectation along with it."""
+
+    def __init__(self, content_type, user_agent):
+        self.content_type = content_type
+        self.user_agent = user_agent
+
+
+def same_value(a, b):
+    """Equality that does not confuse 0 / False / 0.0 or "" / other empties."""
+    return type(a) is type(b) and a == b
+
+
 def monitor_lines(lines, stack, extra, cfg, body_len):
-    """Property statement on the emitted header lines of one request."""
+    """Property statement on the emitted header lines of one request; `cfg` is a Want."""
     if not in_domain_stack(stack + [dict(extra)]):
         return None
     low = [(k.lower(), v) for k, v in lines]
@@ -141,7 +166,7 @@ def monitor_lines(lines, stack, extra, cfg, body_len):
             return "header %r sent as %r, the most recently pushed value is %r" % (name, got, val)
     if UA not in expected:
         got = [v for k, v in low if k == UA]
-        if got != [cfg.user_agent]:
+        if len(got) != 1 or not same_value(got[0], cfg.user_agent):
             return "User-Agent sent as %r, configured %r" % (got, cfg.user_agent)
     custom = [k for k, _ in low if k not in PROTECTED and k != UA]
     for k in custom:
@@ -212,9 +237,10 @@ class ProxyRun(object):
     request the harness records the dictionaries in force (its own bookkeeping: the constructor's dictionary plus
     those of the blocks it is inside of), a copy of the transport's stack, the header lines and the body sent."""
 
-    def __init__(self, cfg, ctor):
+    def __init__(self, cfg, ctor, want=None):
         J = impl.jsonrpclib.jsonrpc
         self.cfg = cfg
+        self.want = want or WANT
         self.conn = RecConn()
         self.requests = []
         run = self
@@ -287,7 +313,7 @@ class ProxyRun(object):
         final = copy_stack(self.transport.additional_headers)
         reqs = self.requests[first_req:]
         for n, rq in enumerate(reqs):
-            m = monitor_lines(rq["lines"], rq["in_force"], rq["extra"], self.cfg, rq["body_len"])
+            m = monitor_lines(rq["lines"], rq["in_force"], rq["extra"], self.want, rq["body_len"])
             if m:
                 hits.append(("recency:" + m[:40], "request %d of the tree, dictionaries in force %r, sent %r: %s"
                              % (n + 1, rq["in_force"], rq["lines"], m)))
@@ -303,9 +329,9 @@ class ProxyRun(object):
         return {"exit": exit_kind, "error": error, "final": final, "requests": reqs, "hits": hits}
 
 
-def run_program(cfg, ctor, program):
+def run_program(cfg, ctor, program, want=None):
     """`program`: list of [tree, how], run one after the other on ONE proxy (and one transport)."""
-    pr = ProxyRun(cfg, ctor)
+    pr = ProxyRun(cfg, ctor, want)
     return pr, [pr.run_tree(tree, how) for tree, how in program]
 
 
@@ -436,7 +462,7 @@ def run_sequence(cfg, ops):
             extra = [tuple(x) for x in (t._extra_headers or [])]
             t.send_content(conn, op[1])
             blen = len(op[1].encode("utf-8"))
-            m = monitor_lines(conn.lines, copy_stack(mine), extra, cfg, blen)
+            m = monitor_lines(conn.lines, copy_stack(mine), extra, WANT, blen)
             if m:
                 hits.append(("recency:" + m[:40], "send %d on one transport, dictionaries in force %r, sent %r: %s"
                              % (len(sends) + 1, mine, conn.lines, m)))
@@ -476,12 +502,259 @@ def systematic_sequences():
 
 
 def hdr_line(cfg, blen, extra, stack):
+    """`cfg` is a Want (the harness's own bookkeeping)."""
     return "hdr L5 %s I%d %s %s %s" % (pyval.enc(cfg.content_type), blen, pyval.enc(cfg.user_agent),
                                       enc_dict(dict(extra)) if extra else "L0", enc_stack(stack))
 
 
+WANT = Want("application/json-rpc", "ua/1.0")
+
+
 def make_cfg():
-    return impl.jsonrpclib.config.Config(content_type="application/json-rpc", user_agent="ua/1.0")
+    return impl.jsonrpclib.config.Config(content_type=WANT.content_type, user_agent=WANT.user_agent)
+
+
+# ---------------------------------------------------------------------------------------------
+# "User-Agent is the configured one unless overridden": from Config(user_agent=...) to the header line
+#
+# A route says how the program configured the user agent and which transport carries the request:
+#   {"arg": <value>, "how": "kw" | "pos" | "omitted", "steps": ["copy" | ["store", <value>] ...], "via": <VIAS>}
+# Values are JSON values (None, strings, 0 / False / 7) or ["repeat", <piece>, <n>] for a very long string.
+
+UA_CLASSES = [
+    ("none", [None]),
+    ("empty", [""]),
+    ("blank", [" ", "\t", "   "]),
+    ("odd", ["0", "None", "False", "  padded  ", "a;b=c, (d) \"q\"", "tab\tinside", "user-agent", ":",
+             "jsonrpclib/0 (Python 0)", "Content-Length: 0"]),
+    ("long", [["repeat", "Mozilla/5.0 (X11; Linux) ", 300], ["repeat", "x", 9000]]),
+    ("plain", ["ua/1.0", "my-agent/2"]),
+    ("nonstr", [0, False, 7]),
+]
+DIRECT_VIAS = ["Transport", "SafeTransport", "UnixTransport"]
+PROXY_VIAS = ["proxy-http", "proxy-https", "proxy-unix"]
+VIAS = DIRECT_VIAS + PROXY_VIAS
+PROXY_URI = {"proxy-http": "http://localhost:1/rpc", "proxy-https": "https://localhost:1/rpc",
+             "proxy-unix": "unix+http:///nonexistent/jrv-c18.sock"}
+PROXY_CLASS = {"proxy-http": "Transport", "proxy-https": "SafeTransport", "proxy-unix": "UnixTransport"}
+UA_OVERRIDES = [None, {"User-Agent": ""}, {"user-agent": "o1"}, {"USER-AGENT": "o2"}, {"user-agent": ""}, {"User-Agent": 0}]
+
+
+def thaw(v):
+    if isinstance(v, list) and len(v) == 3 and v[0] == "repeat":
+        return v[1] * v[2]
+    return v
+
+
+def ua_class(v):
+    v = thaw(v)
+    if v is None:
+        return "none"
+    if not isinstance(v, str):
+        return "nonstr"
+    if v == "":
+        return "empty"
+    if not v.strip():
+        return "blank"
+    if len(v) > 1000:
+        return "long"
+    return "plain" if v in ("ua/1.0", "my-agent/2") else "odd"
+
+
+def default_agent():
+    """The library default: the user agent of a configuration nobody configured."""
+    return impl.jsonrpclib.config.Config().user_agent
+
+
+def build_config(route):
+    """The program's side: builds the configuration object as the route says.  Returns (cfg, configured) where
+    `configured` is the harness's own record of the value configured last (None: the library default was asked for)."""
+    C = impl.jsonrpclib.config.Config
+    arg = thaw(route.get("arg"))
+    how = route.get("how", "kw")
+    if how == "omitted":
+        cfg, configured = C(), None
+    elif how == "pos":
+        cfg, configured = C(2.0, WANT.content_type, arg), arg
+    else:
+        cfg, configured = C(content_type=WANT.content_type, user_agent=arg), arg
+    for st in route.get("steps", []):
+        if st == "copy":
+            cfg = cfg.copy()
+        else:
+            configured = thaw(st[1])
+            cfg.user_agent = configured
+    return cfg, configured
+
+
+def want_of(configured):
+    return Want(WANT.content_type, default_agent() if configured is None else configured)
+
+
+def run_route(route, stack, extra, body, how="call"):
+    """run_route_raw, with what the library raises turned into an outcome: an AssertionError (pop_headers) is a monitor
+    hit; any other exception is reported as `error` (the model expects none: a disagreement)."""
+    try:
+        return run_route_raw(route, stack, extra, body, how)
+    except AssertionError as ex:
+        return {"error": "AssertionError", "hits": [("assert", "pop_headers assertion failed: %r" % (ex,))]}
+    except Exception as ex:  # noqa: BLE001
+        return {"error": type(ex).__name__, "hits": []}
+
+
+def run_route_raw(route, stack, extra, body, how="call"):
+    """One request of a transport that got the route's configuration.  Direct vias: push `stack`, send `body` with
+    send_content.  Proxy vias: ServerProxy(uri, config=cfg, headers=stack[0]) builds its own transport; stack[1:] are
+    nested _additional_headers blocks; the request is a call / notification / batch.
+    Returns {"lines", "blen", "in_force", "extra", "agent" (the transport's attribute), "class", "hits"}."""
+    J = impl.jsonrpclib.jsonrpc
+    cfg, configured = build_config(route)
+    want = want_of(configured)
+    via = route["via"]
+    stack = [dict(d) for d in stack]
+    hits = []
+    if via in DIRECT_VIAS:
+        if via == "Transport":
+            t = J.Transport(cfg)
+        elif via == "SafeTransport":
+            t = J.SafeTransport(cfg, None)
+        else:
+            t = J.UnixTransport(cfg, path="/nonexistent/jrv-c18.sock")
+        for d in stack:
+            t.push_headers(d)
+        t._extra_headers = [tuple(x) for x in extra]
+        conn = RecConn()
+        t.send_content(conn, body)
+        sent, blen, in_force, extra_seen = list(conn.lines), len(body.encode("utf-8")), stack, [tuple(x) for x in extra]
+    else:
+        ctor = stack[0] if stack else None
+        proxy = J.ServerProxy(PROXY_URI[via], config=cfg, headers=ctor)
+        t = proxy("transport")
+        conn = RecConn()
+        rec = []
+        real_send = t.send_content
+
+        def send_content(connection, request_body):
+            n0 = len(connection.lines)
+            real_send(connection, request_body)
+            rec.append((list(connection.lines[n0:]), len(connection.body)))
+
+        t.make_connection = lambda host: conn      # nothing is connected: the lines go to the recorder
+        t.send_content = send_content
+        in_force = [dict(ctor or {})] + stack[1:]
+        with contextlib.ExitStack() as blocks:
+            for d in stack[1:]:
+                blocks.enter_context(proxy._additional_headers(d))
+            if how == "notify":
+                proxy._notify.m(1)
+            elif how == "batch":
+                mc = J.MultiCall(proxy)
+                mc.m(1)
+                mc._notify.n(2)
+                mc()
+            else:
+                proxy.m(1)
+        if len(rec) != 1:
+            hits.append(("requests", "%d requests sent for one %s" % (len(rec), how)))
+        sent, blen = rec[0] if rec else ([], 0)
+        extra_seen = [tuple(x) for x in (getattr(t, "_extra_headers", None) or [])]
+        if type(t).__name__ != PROXY_CLASS[via]:
+            hits.append(("transport-class", "ServerProxy(%r) built a %s" % (PROXY_URI[via], type(t).__name__)))
+    m = monitor_lines(sent, in_force, extra_seen, want, blen)
+    if m:
+        hits.append(("user-agent:" + m[:32] if m.startswith("User-Agent") else "recency:" + m[:40],
+                     "configuration %r (configured user agent %r) through %s, dictionaries in force %r, sent %r: %s"
+                     % (route, _short(configured), via, in_force, _short_lines(sent), m)))
+    return {"lines": sent, "blen": blen, "in_force": in_force, "extra": extra_seen, "agent": t.user_agent,
+            "configured": configured, "want": want, "hits": hits}
+
+
+def _short(v):
+    return v if not isinstance(v, str) or len(v) < 80 else v[:40] + "...(%d characters)" % len(v)
+
+
+def _short_lines(ls):
+    return [(k, _short(v)) for k, v in ls]
+
+
+def enc_steps(steps):
+    parts = [pyval.enc("copy") if st == "copy" else "L2 %s %s" % (pyval.enc("store"), pyval.enc(thaw(st[1]))) for st in steps]
+    return "L%d %s" % (len(parts), " ".join(parts)) if parts else "L0"
+
+
+def route_lines(route, res):
+    """(model input line, implementation outcome) pairs for one run of a route."""
+    arg = None if route.get("how") == "omitted" else thaw(route.get("arg"))
+    steps = route.get("steps", [])
+    dflt = default_agent()
+    out = [("cfgua L3 %s %s %s" % (pyval.enc(dflt), pyval.enc(arg), enc_steps(steps)), "ok " + pyval.enc(res["agent"]))]
+    if isinstance(res["want"].user_agent, str) and isinstance(dflt, str) and \
+            all(isinstance(v, str) for _, v in res["lines"]):
+        out.append(("hdrcfg L7 %s I%d %s %s %s %s %s" % (
+            pyval.enc(WANT.content_type), res["blen"], pyval.enc(dflt), pyval.enc(arg), enc_steps(steps),
+            enc_dict(dict(res["extra"])) if res["extra"] else "L0", enc_stack(res["in_force"])),
+            "ok " + lines_tree(res["lines"])))
+    return out
+
+
+def systematic_routes(full):
+    """Every class of configured value x every way to give it x no step / copy / copy copy / a store over it, x every
+    transport, without and with an overriding pushed dictionary.  Yields (route, stack).  `full` (thorough tier): the
+    whole product; otherwise every value meets every via and every step shape, overrides rotate."""
+    step_shapes = [[], ["copy"], ["copy", "copy"]]
+    n = 0
+    for cls, values in UA_CLASSES:
+        for v in values:
+            hows = ["kw", "pos"] + (["omitted"] if v is None else [])
+            for via in VIAS:
+                for how in hows:
+                    for steps in step_shapes:
+                        n += 1
+                        ovs = UA_OVERRIDES if full else [None, UA_OVERRIDES[1 + n % (len(UA_OVERRIDES) - 1)]]
+                        for ov in ovs:
+                            route = {"arg": v, "how": how, "steps": steps, "via": via}
+                            yield route, ([{"x-test": "1"}, ov] if ov is not None else ([] if n % 2 else [{"Accept": "a"}]))
+            # a later store wins over the constructor argument, and survives a copy
+            for other in ("", "first/1", None):
+                if v is None:
+                    continue
+                for k, via in enumerate(VIAS if full else [VIAS[n % 6], VIAS[(n + 3) % 6]]):
+                    n += 1
+                    yield {"arg": other, "how": "kw", "steps": [["store", v]], "via": via}, []
+                    yield {"arg": other, "how": "kw", "steps": ["copy", ["store", v], "copy"], "via": via}, [{"X-Other": 2}]
+
+
+def gen_ua(rng, allow_none=True):
+    cls, values = rng.choice(UA_CLASSES)
+    if cls == "none" and not allow_none:
+        return ""
+    if cls == "long" and rng.random() < 0.5:
+        return ["repeat", rng.choice(["ab ", "x", "agent/1 "]), rng.randint(400, 5000)]
+    return rng.choice(values)
+
+
+def gen_route(rng, strings_only=False, vias=VIAS):
+    while True:
+        arg = gen_ua(rng)
+        how = rng.choice(["kw", "kw", "pos"]) if arg is not None else rng.choice(["kw", "pos", "omitted"])
+        steps = []
+        for _ in range(rng.choice([0, 0, 1, 1, 2, 3])):
+            steps.append("copy" if rng.random() < 0.6 else ["store", gen_ua(rng, allow_none=False)])
+        route = {"arg": arg, "how": how, "steps": steps, "via": rng.choice(vias)}
+        last = [arg] + [st[1] for st in steps if st != "copy"]
+        if not strings_only or last[-1] is None or isinstance(thaw(last[-1]), str):
+            return route
+
+
+def gen_ua_stack(rng):
+    """Pushed dictionaries in which a User-Agent entry, in any letter case, empty or not, is frequent."""
+    stack = [gen_dict(rng) for _ in range(rng.randint(0, 3))]
+    if rng.random() < 0.5:
+        d = {rng.choice(casings(UA) + ["user-Agent"]): rng.choice(["", "", "o", " ", 0, None, "ua/1.0"])}
+        if rng.random() < 0.5:
+            d[rng.choice(casings("x-test"))] = rng.choice(VALUES)
+        stack.insert(rng.randint(0, len(stack)), d)
+    return stack
 
 
 def run(ctx):
@@ -494,9 +767,13 @@ def run(ctx):
                 "with calls / notifications / batches, left normally or through an Exception, a direct BaseException "
                 "subclass, GeneratorExit or SystemExit, run one after the other on one real ServerProxy (systematic "
                 "sibling / nested redefinitions of one name over every pair of letter cases, plus random trees); "
+                "configured user agents (None, empty, blank, odd, very long, non-string; by keyword / position / omitted; "
+                "then copy() / attribute stores) through Transport, SafeTransport, UnixTransport and through the transport "
+                "ServerProxy(uri, config=...) builds for http / https / unix+http, with and without pushed User-Agent "
+                "entries (systematic product + random), and as the configuration of the block-tree programs; "
                 "distinct_nontrivial = distinct stacks in which some name is defined more than once (case-insensitively), "
                 "sequences with a pop between two sends, programs with an exceptional exit or a name defined by more "
-                "than one dictionary")
+                "than one dictionary, configured-user-agent cases whose configured value is not a plain token")
     lines, impl_out, by_how = [], [], {}
 
     def one_stack(stack, extra, body):
@@ -507,10 +784,10 @@ def run(ctx):
         conn = RecConn()
         t.send_content(conn, body)
         blen = len(body.encode("utf-8"))
-        m = monitor_lines(conn.lines, stack, extra, cfg, blen)
+        m = monitor_lines(conn.lines, stack, extra, WANT, blen)
         if m:
             ctx.violate({"stack": stack, "extra": list(extra), "body": body}, m, key=m[:50])
-        lines.append(hdr_line(cfg, blen, extra, stack))
+        lines.append(hdr_line(WANT, blen, extra, stack))
         impl_out.append("ok " + lines_tree(conn.lines))
         names = [k.lower() for d in stack for k in d] + [k.lower() for k, _ in extra]
         collide = len(set(names)) != len(names)
@@ -523,7 +800,7 @@ def run(ctx):
         for key, detail in hits:
             ctx.violate({"ops": ops}, detail, key=key)
         for sd in sends:
-            lines.append(hdr_line(cfg, sd["blen"], sd["extra"], sd["stack"]))
+            lines.append(hdr_line(WANT, sd["blen"], sd["extra"], sd["stack"]))
             impl_out.append("ok " + lines_tree(sd["lines"]))
         kinds = [op[0] for op in ops]
         pop_between = "pop" in kinds[kinds.index("send"):] if "send" in kinds else False
@@ -531,13 +808,19 @@ def run(ctx):
                   nontrivial_key=json.dumps(ops, default=repr) if pop_between else None,
                   kind="seq/%dsends%s" % (min(len(sends), 4), "/pop-between" if pop_between else ""))
 
-    def one_program(ctor, program):
-        pr, results = run_program(cfg, ctor, program)
+    def one_program(ctor, program, route=None):
+        if route is None:
+            pcfg, want, case = cfg, WANT, {"ctor": ctor, "program": program}
+        else:   # the proxy's configuration is built the way the route says (string or default user agents)
+            pcfg, configured = build_config(route)
+            want, case = want_of(configured), {"ctor": ctor, "program": program, "route": route}
+            ctx.hist["ua-config/%s/trees" % ua_class(configured)] += 1
+        pr, results = run_program(pcfg, ctor, program, want)
         for i, (res, (tree, how)) in enumerate(zip(results, program)):
             for key, detail in res["hits"]:
-                ctx.violate({"ctor": ctor, "program": program, "failing_tree": i}, detail, key=key)
+                ctx.violate(dict(case, failing_tree=i), detail, key=key)
             # the model starts every tree from the proxy's base stack: blocks of an earlier tree have all been left
-            lines.append("blocks L3 %s %s %s" % (pyval.enc(cfg.user_agent), enc_stack(pr.base), enc_tree(tree)))
+            lines.append("blocks L3 %s %s %s" % (pyval.enc(want.user_agent), enc_stack(pr.base), enc_tree(tree)))
             if res["error"] is not None:
                 impl_out.append("err %s N" % res["error"])
             else:
@@ -552,6 +835,27 @@ def run(ctx):
                   kind="trees%d/%s" % (len(program), next((e for e in exits if e != "normal"), "normal")))
         for res, (tree, how) in zip(results, program):
             by_how[how] = by_how.get(how, 0) + len(res["requests"])
+
+    def one_route(route, stack, extra=(), body="{}", how="call"):
+        res = run_route(route, stack, extra, body, how)
+        case = {"route": route, "stack": stack, "extra": [list(x) for x in extra], "body": body, "how": how}
+        for key, detail in res["hits"]:
+            ctx.violate(case, detail, key=key)
+        if res.get("error"):
+            ctx.disagree(case, "err %s" % res["error"], "ok (no exception expected)", component="route")
+            ctx.count(kind="ua-config/raised/" + res["error"])
+            return
+        for ln, io in route_lines(route, res):
+            lines.append(ln)
+            impl_out.append(io)
+        cls = ua_class(res["configured"])
+        overridden = any(k.lower() == UA for d in res["in_force"] for k in d)
+        ctx.hist["ua-via/" + route["via"]] += 1
+        ctx.hist["ua-steps/" + ("none" if not route["steps"] else
+                                "+".join("copy" if st == "copy" else "store" for st in route["steps"]))] += 1
+        ctx.count(case_repr={"route": route, "stack": stack, "sent": _short_lines(res["lines"])},
+                  nontrivial_key=json.dumps([route, stack, how], default=repr) if cls != "plain" else None,
+                  kind="ua-config/%s/%s/%s" % (cls, route.get("how", "kw"), "overridden" if overridden else "not-overridden"))
 
     # the stack of the original defect, always
     one_stack([{"x-test": "1"}, {"X-Test": "2"}, {"x-test": "3"}], [], "{}")
@@ -572,9 +876,25 @@ def run(ctx):
         body = ctx.rng.choice(["", "{}", "é" * ctx.rng.randint(1, 4), '{"jsonrpc": "2.0"}'])
         one_stack(stack, extra, body)
 
+    # the configured User-Agent: every class of value through every transport
+    for route, stack in systematic_routes(full=ctx.thorough):
+        one_route(route, stack)
+    for _ in range(ctx.budget(300, 5000)):
+        route = gen_route(ctx.rng)
+        if route["via"] in DIRECT_VIAS:
+            extra = [] if ctx.rng.random() < 0.7 else [(ctx.rng.choice(["Authorization", "User-Agent", "user-agent"]),
+                                                        ctx.rng.choice(["Basic abc", ""]))]
+            one_route(route, gen_ua_stack(ctx.rng), extra, ctx.rng.choice(["", "{}", "é" * ctx.rng.randint(1, 4)]))
+        else:
+            stack = [gen_dict(ctx.rng, allow_protected=False)] + gen_ua_stack(ctx.rng) if ctx.rng.random() < 0.7 else []
+            one_route(route, stack, how=ctx.rng.choice(["call", "notify", "batch"]))
+
     # block trees through a real ServerProxy
-    for ctor, program in systematic_programs(full=ctx.thorough):
+    for n, (ctor, program) in enumerate(systematic_programs(full=ctx.thorough)):
         one_program(ctor, program)
+        if n % 7 == 0:   # … and under a configured empty / blank / default user agent
+            one_program(ctor, program, {"arg": ["", " ", None][n // 7 % 3], "how": "kw", "steps": [["copy"], []][n // 7 % 2],
+                                        "via": "given"})
     for i in range(ctx.budget(150, 2500)):
         hot = ctx.rng.choice(NAMES + [UA])
         ntrees = 1 if ctx.rng.random() < 0.65 else ctx.rng.randint(2, 3)
@@ -584,7 +904,7 @@ def run(ctx):
             ctor = gen_dict(ctx.rng, allow_protected=False)
             if ctx.rng.random() < 0.4 and not any(k.lower() == hot for k in ctor):
                 ctor[ctx.rng.choice(casings(hot))] = ctx.rng.choice(VALUES)
-        one_program(ctor, program)
+        one_program(ctor, program, gen_route(ctx.rng, strings_only=True, vias=["given"]) if ctx.rng.random() < 0.5 else None)
 
     # several sends on one transport
     for ops in systematic_sequences():
@@ -603,6 +923,10 @@ def run(ctx):
     ctx.traces_validated += len(lines) - unmodelled
     ctx.extra["unmodelled_cases"] = unmodelled
     ctx.extra["tree_requests_monitored_by_kind"] = dict(sorted(by_how.items()))
+    ctx.assumptions.append("the configured user agent is the `user_agent` argument of Config(...) or the latest value stored into "
+                           "the attribute before the configuration is handed to a transport / ServerProxy; None asks for the "
+                           "library default (the user agent of Config()); a None stored into the attribute afterwards is "
+                           "outside the property (not generated)")
     ctx.assumptions.append("header names are ASCII (str.lower == String.toLower); str(value) modelled for str/int/bool/None values")
     ctx.assumptions.append("exceptions that leave a block: an Exception subclass, a direct BaseException subclass, GeneratorExit "
                            "and SystemExit raised by the block's own code (asynchronous exceptions delivered between "
@@ -615,7 +939,18 @@ def replay(payload):
     case = payload.get("case", {})
     print(json.dumps(case, indent=1, default=repr))
     found = []
-    if "stack" in case:
+    if "route" in case and "stack" in case:
+        res = run_route(case["route"], case["stack"], [tuple(x) for x in case.get("extra", [])], case.get("body", "{}"),
+                        case.get("how", "call"))
+        if res.get("error"):
+            print("the library raised", res["error"])
+        else:
+            print("configured user agent: %r (None asks for the library default %r)" % (_short(res["configured"]), default_agent()))
+            print("user_agent attribute of the transport: %r" % (_short(res["agent"]),))
+            print("dictionaries in force:", res["in_force"], "extra:", res["extra"])
+            print("sent:", _short_lines(res["lines"]))
+        found += [detail for _, detail in res["hits"]]
+    elif "stack" in case:
         t = J.Transport(cfg)
         for d in case["stack"]:
             t.push_headers(d)
@@ -623,7 +958,7 @@ def replay(payload):
         conn = RecConn()
         t.send_content(conn, case.get("body", "{}"))
         print("sent:", conn.lines)
-        m = monitor_lines(conn.lines, case["stack"], t._extra_headers, cfg, len(case.get("body", "{}").encode("utf-8")))
+        m = monitor_lines(conn.lines, case["stack"], t._extra_headers, WANT, len(case.get("body", "{}").encode("utf-8")))
         if m:
             found.append(m)
     elif "ops" in case:
@@ -635,7 +970,12 @@ def replay(payload):
         program = case.get("program")
         if program is None:  # replay files written before programs of several trees existed
             program = [[case["tree"], case.get("how", "call")]]
-        pr, results = run_program(cfg, case.get("ctor"), program)
+        want = None
+        if case.get("route") is not None:
+            cfg, configured = build_config(case["route"])
+            want = want_of(configured)
+            print("configured user agent: %r (None asks for the library default %r)" % (_short(configured), default_agent()))
+        pr, results = run_program(cfg, case.get("ctor"), program, want)
         print("stack of the new proxy:", pr.base)
         for i, res in enumerate(results):
             print("tree %d (%s): exit=%s stack afterwards=%r" % (
